@@ -94,6 +94,15 @@ func (f *SubscriptionFieldFilter) SkipEvent(ctx *Context, data []byte) (bool, er
 	if _err != nil {
 		return true, nil
 	}
+	if expectedDataType == jsonparser.String {
+		// jsonparser hands out the content of a JSON string as it is written, escape sequences included:
+		// compare, and quote, the string it denotes
+		unescaped, err := jsonparser.Unescape(expected, nil)
+		if err != nil {
+			return true, nil
+		}
+		expected = unescaped
+	}
 
 	// Scratch buffer for rendering filter template values. Pooled to avoid
 	// per-event allocations.
